@@ -16,7 +16,11 @@ Nothing here looks at the text of a statement, at parameter names or at paramete
                  at sample points is undecided);
   data flow      the helper is interpreted on the arguments the rule really passes, with the matrix primal / its tangent replaced by
                  generic matrices C / Cdot and the two callables by x^3 and its exact divided difference: the eigen decomposition must be
-                 taken of C and the result must be the Daleckii-Krein form in Cdot (distinct, double and triple eigenvalues).
+                 taken of C and the result must be the Daleckii-Krein form in Cdot (distinct, double and triple eigenvalues);
+  divided        the two-argument callable handed to the helper must be the divided difference of the one-argument callable:
+  difference     rd(a, b) (a - b) == f(a) - f(b) on symbols, derived by polynomial / square-root algebra or by the exp-log normal form of
+                 rules/C12_explog.py (exp, expm1, log, log1p, real powers, sinh / cosh, both orders of every min / max pair): PROVED;
+                 both sides fully modelled (floor, ceil, ... included) and different at a sample point: REFUTED; else a note.
 """
 from __future__ import annotations
 
@@ -569,6 +573,7 @@ def jvp_wiring(ctx, rule):
     if len(jfs) < 5:
         raise Incomplete(f"{len(jfs)} custom_jvp functions found (5 expected)")
     helper_rules(ctx, rule)
+    divided_differences(ctx, rule)
 
 
 def _expected(lam, V, Cd):
@@ -692,40 +697,87 @@ def relative_difference_of(ctx, pred):
     return None
 
 
-def screen_relative_differences(ctx, rule):
-    """For every spectral function: rd(a, b) (a - b) == f(a) - f(b) with f the scalar function of the rule and rd the relative difference it
-    hands to the helper -- exactly where the algebra closes (square root), else evaluated at well separated sample points (refutation only)."""
-    n_ok = 0
-    for jf in wiring(ctx):
-        if not (jf.spectral and jf.rd is not None and jf.ft is not None and jf.same_f is True):
-            continue
-        I = jf.I
-        a, b = Dual(_A.atom("@a")), Dual(_A.atom("@b"))
-        I.positive.update({"@a", "@b"})
-        where = callable_scope(jf.rd) or jf.where
-        try:
-            got = I.num(I.call(jf.rd, [a, b], {}))
-            fa, fb = I.num(I.call(jf.ft, [a], {})), I.num(I.call(jf.ft, [b], {}))
-            if not all(isinstance(v, Dual) for v in (got, fa, fb)):
-                continue
-            lhs, rhs = _A.norm(got.a * (a.a - b.a)), _A.norm(fa.a - fb.a)
-            if _A.equal(lhs, rhs):
-                n_ok += 1
-                continue
-            bad = None
+def divided_difference_verdict(jf):
+    """Is the two-argument callable that the rule of `jf` hands to the tangent helper the divided difference of the scalar function the rule
+    differentiates:  rd(a, b) (a - b) == f(a) - f(b)  for symbolic a, b > 0 (and symbolic extra parameters such as an exponent)?
+    -> (True, how): identity derived exactly (polynomial / square-root algebra, or the exp-log normal form of rules/C12_explog.py);
+       (False, witness): every operation of both sides is modelled and the two sides differ at a sample point;
+       (None, why): equal at the sample points but not derived, or a side that cannot be evaluated.      Cached on the JvpFunction."""
+    if getattr(jf, "dd_verdict", None) is not None:
+        return jf.dd_verdict
+    from . import C12_explog
+    I = jf.I
+    a, b = Dual(_A.atom("@a")), Dual(_A.atom("@b"))
+    I.positive.update({"@a", "@b"})
+    verdict = (None, "not evaluated")
+    try:
+        got = I.num(I.call(jf.rd, [a, b], {}))
+        fa, fb = I.num(I.call(jf.ft, [a], {})), I.num(I.call(jf.ft, [b], {}))
+        if not all(isinstance(v, Dual) for v in (got, fa, fb)):
+            raise EvalError("the relative difference or the scalar function does not return a scalar")
+        lhs, rhs = _A.norm(got.a * (a.a - b.a)), _A.norm(fa.a - fb.a)
+        if _A.equal(lhs, rhs):
+            verdict = (True, "exact algebra")
+        elif C12_explog.is_zero(I, _A.norm(lhs - rhs)) is True:
+            verdict = (True, "exp-log normal form, every order of the arguments")
+        else:
+            bad, seen = None, 0
             for pt0 in ({"@a": 2.0, "@b": 0.5}, {"@a": 0.3, "@b": 3.0}, {"@a": 1.5, "@b": 1.2}):
                 for pt in _sample_points(I, [lhs, rhs], [pt0]):
                     x, y = I.numeric(lhs, pt), I.numeric(rhs, pt)
                     if x != x or y != y:
                         continue
-                    if abs(x - y) > 1e-9 * max(1.0, abs(x), abs(y)):
-                        bad = (pt0["@a"], pt0["@b"], x / (pt0["@a"] - pt0["@b"]), y / (pt0["@a"] - pt0["@b"]))
+                    seen += 1
+                    if bad is None and abs(x - y) > 1e-9 * max(1.0, abs(x), abs(y)):
+                        gap = pt0["@a"] - pt0["@b"]
+                        others = {k: v for k, v in pt.items() if k not in pt0}
+                        bad = (f"evaluates to {x / gap:.12g} at ({pt0['@a']}, {pt0['@b']})"
+                               + (f" with the remaining parameters at {sorted(others.values())}" if others else "")
+                               + f" but (f(a)-f(b))/(a-b) = {y / gap:.12g}")
             if bad:
-                ctx.refuted(rule, where, None, construct=f"{jf.name}:relative-difference-of-the-scalar-function",
-                            detail=f"the relative difference handed to the tangent helper by the rule of {jf.name} evaluates to {bad[2]:.12g} at ({bad[0]}, {bad[1]}) "
-                                   f"but (f(a)-f(b))/(a-b) = {bad[3]:.12g} for the scalar function f of {jf.name}")
+                verdict = (False, bad)
+            elif seen:
+                verdict = (None, "agrees at well separated sample points; the identity was not derived (sampling is not a proof)")
             else:
-                n_ok += 1
-        except _ERR + (OverflowError,):
+                verdict = (None, "not evaluable at the sample points")
+    except _ERR + (OverflowError,) as ex:
+        verdict = (None, f"cannot be interpreted on symbols: {ex}")
+    jf.dd_verdict = verdict
+    return verdict
+
+
+def divided_differences(ctx, rule):
+    """one obligation per spectral custom_jvp function whose rule hands a relative difference to the tangent helper (jvp_wiring: C12 O3, C10 W1):
+    PROVED when the identity rd(a,b)(a-b) = f(a)-f(b) is derived, REFUTED on a numeric witness; agreement at sample points alone is a note"""
+    for jf in wiring(ctx):
+        if not (jf.spectral and jf.rd is not None and jf.ft is not None and jf.same_f is True):
             continue
+        where = callable_scope(jf.rd) or jf.where
+        ctx.touch(where)
+        ok, why = divided_difference_verdict(jf)
+        construct = f"{jf.name}:relative-difference-is-the-divided-difference-of-the-scalar-function"
+        if ok is True:
+            ctx.proved(rule, where, None, construct=construct,
+                       detail=f"rd(a, b) (a - b) == f(a) - f(b) for the callables the rule of {jf.name} hands to the tangent helper ({why})")
+        elif ok is False:
+            ctx.refuted(rule, where, None, construct=construct,
+                        detail=f"the relative difference handed to the tangent helper by the rule of {jf.name} is not the divided difference of the scalar function "
+                               f"f that the rule differentiates: it {why}; the off-diagonal (eigenbasis) part of the derivative of {jf.name} is wrong")
+        else:
+            ctx.notes.append(f"{jf.name}: relative difference against the divided difference of the scalar function: {why}")
+
+
+def screen_relative_differences(ctx, rule):
+    """For every spectral function: rd(a, b) (a - b) == f(a) - f(b) with f the scalar function of the rule and rd the relative difference it
+    hands to the helper (divided_difference_verdict) -- refutation only; -> number of functions without a counterexample."""
+    n_ok = 0
+    for jf in wiring(ctx):
+        if not (jf.spectral and jf.rd is not None and jf.ft is not None and jf.same_f is True):
+            continue
+        ok, why = divided_difference_verdict(jf)
+        if ok is False:
+            ctx.refuted(rule, callable_scope(jf.rd) or jf.where, None, construct=f"{jf.name}:relative-difference-of-the-scalar-function",
+                        detail=f"the relative difference handed to the tangent helper by the rule of {jf.name} {why} for the scalar function f of {jf.name}")
+        elif ok is True or why.startswith("agrees"):
+            n_ok += 1
     return n_ok
